@@ -211,6 +211,13 @@ type c17Gen struct {
 	siteGroups int
 	// siteNames: helper names of those groups -> the package that provides them
 	siteNames map[string]string
+	// "defined more than once" groups emitted (c17_gen_redef.go)
+	redefGroups int
+	redefInfo   []c17RedefInfo
+	// noMention[file]: names that file defines more than once, ending in a set
+	// after a defun: the file must not spell them anywhere else (the shape of
+	// defect D8), not even as a local
+	noMention map[int]map[string]bool
 }
 
 func (g *c17Gen) lvlOK(gl *c17Glob) bool { return g.limitLvl == 0 || gl.lvl <= g.limitLvl }
@@ -297,6 +304,12 @@ func (g *c17Gen) pickLocalName(env *c17Env, r *c17Rng) string {
 	}
 	if name == "" {
 		name = c17Pick(r, c17PlainNames)
+	}
+	for try := 0; g.noMention[g.curFile][name]; try++ {
+		name = c17Pick(r, c17PlainNames)
+		if try > 8 {
+			name = "loc" + strconv.Itoa(try)
+		}
 	}
 	g.names[name] = true
 	return name
@@ -1725,6 +1738,9 @@ type c17Session struct {
 	// the leading package segment of file t — two files written after one
 	// template, so their definitions sit at the same line and column.
 	TwinOf map[int]int
+	// Redef: the groups "a name defined more than once, referenced from elsewhere"
+	// (c17_gen_redef.go); evidence only
+	Redef []c17RedefInfo
 }
 
 // c17TwinSrc is a leading package segment that can serve as a template: the
@@ -1867,6 +1883,9 @@ func c17Generate(seed uint64, on map[string]bool, kwOK bool, avoid map[string]bo
 	// "site names" macro groups: drawn from a stream of their own as well
 	sm := c17NewRng(seed ^ 0x736974656e616d65)
 	siteOn := g.has("defmacro") && sm.chance(2, 5)
+	// "a name defined more than once, referenced from elsewhere": likewise
+	rd := c17NewRng(seed ^ 0x7265646566696e65)
+	redefOn := nfiles > 1 && rd.chance(1, 3)
 	for f := 0; f < nfiles; f++ {
 		g.curFile = f
 		if f > 0 && g.avoid["D10"] {
@@ -1907,6 +1926,9 @@ func c17Generate(seed uint64, on map[string]bool, kwOK bool, avoid map[string]bo
 			if siteOn && g.siteGroups < 2 && sm.chance(1, 2) {
 				g.siteGroup(f, p, pkgChoices, sm.fork())
 			}
+			if redefOn && f > 0 && g.redefGroups < 2 && rd.chance(1, 2) {
+				g.redefGroup(f, p, pkgChoices, rd.fork())
+			}
 		}
 	}
 	// final observable in the last file
@@ -1932,7 +1954,7 @@ func c17Generate(seed uint64, on map[string]bool, kwOK bool, avoid map[string]bo
 	if g.has("forward-ref") {
 		g.swapDefuns(root.fork())
 	}
-	s := &c17Session{Files: g.files, Used: g.used, KwOK: kwOK, NPkgs: len(g.pkgOrder), Excluded: g.excluded, TwinOf: twinOf}
+	s := &c17Session{Files: g.files, Used: g.used, KwOK: kwOK, NPkgs: len(g.pkgOrder), Excluded: g.excluded, TwinOf: twinOf, Redef: g.redefInfo}
 	s.Paths = c17FlatPaths(len(g.files))
 	for n := range g.names {
 		s.Names = append(s.Names, n)
